@@ -91,7 +91,9 @@ def inDomain (ms : List Mapping) (d : Json) : Bool :=
   * `constant` — "populate it with a default value": the key holds the constant (when `k._mapper` is also given: if
                  that entry is written before the Constant, or the sub-document is absent / None);
   * `move`     — the key holds what the (dotted) source path held before, when the path's first key is written by no
-                 other entry (it may be `Deleted`: the rename idiom `{"new": "old", "old": Deleted}`);
+                 Constant / `._mapper` / FunctionCall entry and no earlier move (it may be `Deleted`: the rename idiom
+                 `{"new": "old", "old": Deleted}`); else what the path holds at the end, when no later move writes the
+                 first key and it is not deleted (moves run after the other entries);
   * `function` — the key holds the function applied to the values of the argument keys: the value before the
                  step when no *earlier* entry of the mapping writes the key, the constant when the one earlier
                  writer is a `Constant` (entries act in the order written); not judged otherwise;
@@ -111,6 +113,7 @@ inductive PEntry where
 
 def PEntry.isSub : PEntry → Bool | .sub _ => true | _ => false
 def PEntry.isDeleted : PEntry → Bool | .deleted => true | _ => false
+def PEntry.isMove : PEntry → Bool | .move _ => true | _ => false
 def PEntry.isWriter1 : PEntry → Bool | .const _ => true | .sub _ => true | .fn _ _ => true | _ => false
 
 def keyed (q : String) (m : List (String × PEntry)) : List PEntry := (m.filter fun p => p.1 == q).map (·.2)
@@ -211,8 +214,16 @@ def entryViolations (m pre : List (String × PEntry)) (before after : Obj) (k : 
     match p with
     | [] => []
     | h :: _ =>
-      if (keyed h m).all PEntry.isDeleted || (h == k && (keyed h m).length == 1) then
+      -- moves run after every Constant / `._mapper` / FunctionCall entry, in the order written, and before the
+      -- deletions.  The source key `h` still holds what it held before the step when no such entry and no earlier
+      -- move writes it (this covers the rename idiom `{"new": "old", "old": Deleted}`) …
+      if ((keyed h m).filter PEntry.isWriter1).isEmpty && ((keyed h pre).filter PEntry.isMove).isEmpty then
         if optBeq (get k after) (some (deepGet (.obj before) p)) then [] else [s!"move:{k}-wrong-value"]
+      -- … and otherwise it holds what it holds at the end, when no later move writes it and it is not deleted
+      else if h != k && h != "version"
+          && ((keyed h m).filter PEntry.isMove).length == ((keyed h pre).filter PEntry.isMove).length
+          && !(keyed h m).any PEntry.isDeleted then
+        if optBeq (get k after) (some (deepGet (.obj after) p)) then [] else [s!"move:{k}-wrong-value"]
       else []
   | .fn g args =>
     if (keyed k m).length == 1 then
